@@ -302,6 +302,50 @@ def run(ctx):
             r4.violation("%s removes the entry only at count <= 1" % fn.split("::")[-1], "entry removed while other listeners remain (or never removed)", loc(g.sp))
     r4.floor(6, "refcount facts")
 
+    # ---- R6 listener registry ----------------------------------------------------------------------------
+    r6 = ctx.rule("C18.R6", "listener ids are never reused while a listener is registered: add_listener keys the registry with a value read from a "
+                            "MultiReceiver field that is written nowhere but in add_listener, as old + 1 (a monotone counter) - not with something that "
+                            "shrinks when a listener is removed, such as the registry's size; remove_listener removes the given id only", "WWF + ARG")
+    al = prog.fn([p_ for p_ in prog.funcs if re.match(r"^" + re.escape(MR) + r"::add_listener", p_) and prog.funcs[p_].kind != "closure"][0])
+    ctx.analysed(al.path)
+    asl = Slicer(al.body)
+    ins = [s for s, ai, mut in calls_on_field(prog, MR, "listeners", funcs=[al]) if method_name(s) == "insert"]
+    if not ins:
+        raise model.AnchorMissing("add_listener does not insert into MultiReceiver.listeners")
+    for s in ins:
+        kex = asl.expand(s.expr[2][1])
+        ksrc = set(show(c) for c in walk(kex) if c[0] == "var")
+        flds = sorted(set(re.match(r"self\.(\w+)", z).group(1) for z in ksrc if re.match(r"self\.(\w+)", z)))
+        calls_ = sorted(set(c[1].split("::")[-1] for c in walk(kex) if c[0] == "call"))
+        key = "add_listener key"
+        counters = []
+        for fld in flds:
+            ws = [a for a in field_accesses(prog, MR, fld) if a["kind"] in ("assign", "assign_sub", "borrow_mut")]
+            mono = ws and all(a["func"].root().path == al.path and a["kind"] == "assign" and a["value"][0] == "bin" and a["value"][1].startswith("Add") and
+                              show(a["value"][2]) == "self." + fld and show(a["value"][3]) == "1" for a in ws)
+            if mono:
+                counters.append(fld)
+        if counters and not calls_ and not any(f_ == "listeners" for f_ in flds):
+            r6.ok(key, "from the monotone counter self.%s" % counters[0], s.loc)
+        else:
+            r6.violation(key, "the registry key derives from %s: an id can be handed out again while its previous holder is still registered (HashMap::insert "
+                              "then silently replaces that listener, which stops receiving close events)" % (calls_ + ["self." + f_ for f_ in flds] or sorted(ksrc)[:4]), s.loc)
+    rl = prog.fn(MR + "::remove_listener")
+    rm = [s for s, ai, mut in calls_on_field(prog, MR, "listeners", funcs=[rl]) if method_name(s) in ("remove", "retain", "clear")]
+    if len(rm) == 1 and method_name(rm[0]) == "remove" and re.sub(r"[&()]", "", show(rm[0].expr[2][1])) == "id":
+        r6.ok("remove_listener", "listeners.remove(&id)", rm[0].loc)
+    else:
+        r6.violation("remove_listener", "removes %s" % [(method_name(s), show(s.expr[2][1], 30)) for s in rm], loc(rl.sp))
+    r6.floor(2, "listener registry facts")
+
+    # ---- R5 filter bookkeeping ---------------------------------------------------------------------------
+    r5 = ctx.rule("C18.R5", "TSI filter bookkeeping: the four MultiReceiver filter calls hand their own (endpoint, tsi) to the matching TSIFilter method; "
+                            "TSIFilter::add adds a reference to a known TSI or inserts TSI::new(endpoint) (= one reference); TSIFilter::remove removes one "
+                            "reference and drops the TSI entry exactly when it is empty; TSI::is_valid accepts the exact endpoint or the same endpoint "
+                            "registered without a source address, wildcarding nothing else", "ARG + DOM")
+    filter_bookkeeping_rule(ctx, r5)
+    r5.floor(9, "filter bookkeeping facts")
+
 
 def reads_clock(prog, fpath, depth=0, seen=None):
     seen = seen or set()
@@ -339,3 +383,85 @@ def feature_vector(prog, path):
             if "HashMap" in cp:
                 calls.append(cp.split("::")[-1])
     return (tuple(sorted(calls)), tuple(sorted(set(arith))))
+
+
+def filter_bookkeeping_rule(ctx, rule):
+    from ..cfg import strip_ref
+    prog = ctx.prog
+    # public API -> filter with the same arguments
+    for api, callee, nargs in (("add_listen_tsi", "add", 2), ("remove_listen_tsi", "remove", 2),
+                               ("add_listen_all_tsi", "add_endpoint_bypass", 1), ("remove_listen_all_tsi", "remove_endpoint_bypass", 1)):
+        f = prog.fn(MR + "::" + api)
+        ctx.analysed(f.path)
+        cs = call_sites(f, lambda p, c: p.startswith(TF + "::"))
+        key = "MultiReceiver::%s -> TSIFilter::%s" % (api, callee)
+        want = ["endpoint", "tsi"][:nargs]
+        if len(cs) == 1 and cs[0].term.callee_path() == TF + "::" + callee and [re.sub(r"[&*()]", "", show(strip_ref(a))) for a in cs[0].expr[2][1:]] == want:
+            rule.ok(key, "(%s)" % ", ".join(want), cs[0].loc)
+        else:
+            rule.violation(key, "calls %s" % [(c.term.callee_path().split("::")[-1], [show(a, 20) for a in c.expr[2][1:]]) for c in cs], loc(f.sp))
+    # TSIFilter::add: existing TSI -> TSI::add(endpoint), otherwise insert(tsi, TSI::new(endpoint))
+    f = prog.fn(TF + "::add")
+    fl = Flow(f.body)
+    adds = call_sites(f, lambda p, c: p == TSI + "::add")
+    news = call_sites(f, lambda p, c: p == TSI + "::new")
+    ins = call_sites(f, lambda p, c: p.endswith("HashMap::insert"))
+    ok = bool(adds) and bool(news) and bool(ins)
+    for s in adds:
+        if not any(a[0] == "variant" and a[2] == "Some" and t and "self.tsi" in show(a[1]) for (a, t) in fl.facts_at(s.bb)) or show(strip_ref(s.expr[2][1])) != "endpoint":
+            ok = False
+    for s in ins:
+        if not any(a[0] == "variant" and a[2] == "None" and t and "self.tsi" in show(a[1]) for (a, t) in fl.facts_at(s.bb)):
+            ok = False
+        if show(strip_ref(s.expr[2][1])) != "tsi" or "TSI::new(endpoint)" not in show(s.expr[2][2]):
+            ok = False
+    if ok:
+        rule.ok("TSIFilter::add", "known TSI -> TSI::add(endpoint) ; unknown -> insert(tsi, TSI::new(endpoint))", loc(f.sp))
+    else:
+        rule.violation("TSIFilter::add", "does not follow: known TSI -> TSI::add(endpoint), unknown -> insert(tsi, TSI::new(endpoint))", loc(f.sp))
+    g = prog.fn(TSI + "::new")
+    gi = call_sites(g, lambda p, c: p.endswith("HashMap::insert"))
+    if len(gi) == 1 and show(strip_ref(gi[0].expr[2][1])) == "endpoint" and show(gi[0].expr[2][2]) == "1":
+        rule.ok("TSI::new", "endpoints = {endpoint: 1}", gi[0].loc)
+    else:
+        rule.violation("TSI::new", "a new TSI entry does not start with exactly one reference of its endpoint", loc(g.sp))
+    # TSIFilter::remove: per-TSI remove, TSI entry dropped only when it is empty
+    f = prog.fn(TF + "::remove")
+    fl = Flow(f.body)
+    rms = call_sites(f, lambda p, c: p == TSI + "::remove")
+    drops = [s for s in call_sites(f, lambda p, c: p.endswith("HashMap::remove")) if "self.tsi" in show(s.expr[2][0])]
+    ok = bool(rms) and bool(drops) and all(show(strip_ref(s.expr[2][1])) == "endpoint" for s in rms)
+    for s in drops:
+        if not any(a[0] == "true" and t and "TSI::is_empty" in show(a[1]) for (a, t) in fl.facts_at(s.bb)) or re.sub(r"[&()]", "", show(s.expr[2][1])) != "tsi":
+            ok = False
+        if not all(r.bb != s.bb and fl.dominates(r.bb, s.bb) for r in rms):
+            ok = False
+    if ok:
+        rule.ok("TSIFilter::remove", "TSI::remove(endpoint), then drop the TSI entry iff it is empty", loc(f.sp))
+    else:
+        rule.violation("TSIFilter::remove", "the TSI entry is not dropped exactly when its last endpoint reference goes (or another key is removed)", loc(f.sp))
+    ie = prog.fn(TSI + "::is_empty")
+    rets = ret_assign_blocks(ie.body, lambda e: True)
+    if rets and all(e[0] == "call" and e[1].endswith("::is_empty") and "self.endpoints" in show(e[2][0]) for _, e in rets):
+        rule.ok("TSI::is_empty", "endpoints.is_empty()", loc(ie.sp))
+    else:
+        rule.violation("TSI::is_empty", "returns %s" % [show(e, 50) for _, e in rets], loc(ie.sp))
+    # TSI::is_valid: exact endpoint, or the same endpoint without a source address - nothing else is wildcarded
+    iv = prog.fn(TSI + "::is_valid")
+    ctx.analysed(iv.path)
+    cks = call_sites(iv, lambda p, c: p.endswith("HashMap::contains_key"))
+    x = X(iv.body)
+    writes = []
+    for blk in iv.body.blocks:
+        if blk.cleanup:
+            continue
+        for st in blk.stmts:
+            if st.k == "assign" and st.lhs[1]:
+                fl_ = [e for e in st.lhs[1] if e[0] == "f"]
+                if fl_:
+                    writes.append((fl_[-1][2], show(x.rvalue(st.rv, x.depth), 40)))
+    okv = len(cks) == 2 and writes == [("source_address", "Option::None{}")]
+    if okv:
+        rule.ok("TSI::is_valid", "endpoint, or endpoint with source_address = None", loc(iv.sp))
+    else:
+        rule.violation("TSI::is_valid", "the fallback lookup wildcards %s (expected only source_address = None) with %d lookups" % (writes, len(cks)), loc(iv.sp))
